@@ -247,10 +247,45 @@ func zzG08ClientFS() (fsys fstest.MapFS) {
 	}
 }
 
+// guard runs f and reports whether it returned within the limit.  If it did
+// not, the goroutine is abandoned and the process cannot be used any more.
+func (w *zzG08World) guard(f func()) (ok bool) {
+	if w.hung {
+		return false
+	}
+
+	done := make(chan struct{})
+	go func() {
+		defer close(done)
+
+		f()
+	}()
+
+	select {
+	case <-done:
+		return true
+	case <-time.After(time.Duration(zzG08EnvInt("VERIF_G08_BOOT_S", 90)) * time.Second):
+		w.hung = true
+
+		return false
+	}
+}
+
 // boot runs the part of run() between initWorkingDir and web.start on the
 // working directory of the arena.  Where run() ends the process
 // (fatalOnError) boot returns the error.
 func (w *zzG08World) boot() (err error) {
+	if !w.guard(func() { err = w.bootInner() }) {
+		w.up = false
+		w.bootErr = "the boot sequence did not return within the time limit"
+
+		return fmt.Errorf("%s", w.bootErr)
+	}
+
+	return err
+}
+
+func (w *zzG08World) bootInner() (err error) {
 	defer func() {
 		if r := recover(); r != nil {
 			err = fmt.Errorf("boot panics: %v", r)
@@ -390,33 +425,45 @@ func (w *zzG08World) boot() (err error) {
 	return nil
 }
 
-// teardown is cleanup() of home.go.
+// teardown is cleanup() of home.go.  Every stage runs even if an earlier one
+// panics: a statistics database that stays open would block the next boot of
+// this process for ever (a real process exit releases it).
 func (w *zzG08World) teardown() {
-	defer func() { _ = recover() }()
+	stage := func(f func()) {
+		defer func() { _ = recover() }()
 
-	ctx := context.Background()
-	if globalContext.web != nil {
-		globalContext.web.close(ctx)
-		globalContext.web = nil
+		f()
 	}
 
-	if globalContext.auth != nil {
-		globalContext.auth.Close()
-		globalContext.auth = nil
-	}
-
-	if isRunning() {
-		_ = stopDNSServer()
-	} else {
-		// A DNS server that was prepared but does not run still holds its
-		// databases (a real process exit releases them).
-		closeDNSServer()
-	}
-
-	if globalContext.dhcpServer != nil {
-		_ = globalContext.dhcpServer.Stop()
-		globalContext.dhcpServer = nil
-	}
+	w.guard(func() {
+		ctx := context.Background()
+		stage(func() {
+			if globalContext.web != nil {
+				globalContext.web.close(ctx)
+				globalContext.web = nil
+			}
+		})
+		stage(func() {
+			if globalContext.auth != nil {
+				globalContext.auth.Close()
+				globalContext.auth = nil
+			}
+		})
+		stage(func() {
+			if isRunning() {
+				_ = stopDNSServer()
+			}
+		})
+		// A DNS server that was prepared but does not run (or whose stop
+		// failed half way) still holds its databases.
+		stage(closeDNSServer)
+		stage(func() {
+			if globalContext.dhcpServer != nil {
+				_ = globalContext.dhcpServer.Stop()
+				globalContext.dhcpServer = nil
+			}
+		})
+	})
 
 	w.up = false
 	w.handler = nil
@@ -975,11 +1022,17 @@ func zzG08Walk(t testing.TB, a *zzG08Arena, out *zzWriter, vecs []*zzG08Vec, ini
 	stats := map[string]int{}
 	var path []int
 	cur := -1
+	dead := false
 	resetArena := func() {
 		t0 := time.Now()
 		defer func() { stats["ms_reset"] += int(time.Since(t0).Milliseconds()) }()
 		if err := a.reset(); err != nil {
-			t.Fatalf("arena %s: reset: %v", a.name, err)
+			// a deployment that cannot be booted any more ends the walk
+			out.put(map[string]any{"kind": "dead", "arena": a.name, "what": err.Error()})
+			stats["hung"] = 1
+			dead = true
+
+			return
 		}
 
 		key, obs := a.observe()
@@ -1046,7 +1099,7 @@ func zzG08Walk(t testing.TB, a *zzG08Arena, out *zzWriter, vecs []*zzG08Vec, ini
 	budget := 40 * len(vecs)
 	target := -1
 	deadline := time.Now().Add(time.Duration(zzG08EnvInt("VERIF_G08_BUDGET_S", 600)) * time.Second)
-	for left > 0 && budget > 0 {
+	for left > 0 && budget > 0 && !dead {
 		budget--
 		if time.Now().After(deadline) {
 			stats["out_of_time"] = 1
@@ -1284,11 +1337,19 @@ func zzG08NewInstall(t testing.TB) (ia *zzG08Install) {
 }
 
 func (ia *zzG08Install) reset() (err error) {
-	ia.w.newDeployment()
-	ia.fault = false
-	ia.credKey = ""
+	// A picked port may have been taken by another process meanwhile: a
+	// first run does not bind anything, so this only matters for symmetry
+	// with arena T.
+	for attempt := 0; attempt < 3; attempt++ {
+		ia.w.newDeployment()
+		ia.fault = false
+		ia.credKey = ""
+		if err = ia.w.boot(); err == nil || ia.w.hung {
+			return err
+		}
+	}
 
-	return ia.w.boot()
+	return err
 }
 
 func (ia *zzG08Install) port(name string) (p uint16) {
@@ -1538,7 +1599,9 @@ func (ia *zzG08Install) trace(out *zzWriter, n int) {
 
 	restart := func() {
 		if err := ia.reset(); err != nil {
-			ia.w.t.Fatalf("reset: %v", err)
+			ia.w.hung = true
+
+			return
 		}
 
 		_, obs := ia.observe()
@@ -1547,7 +1610,7 @@ func (ia *zzG08Install) trace(out *zzWriter, n int) {
 
 	restart()
 	sinceReset := 0
-	for i := 0; i < n; i++ {
+	for i := 0; i < n && !ia.w.hung; i++ {
 		sinceReset++
 		var act string
 		args := map[string]any{}
@@ -1687,11 +1750,23 @@ tls:
   port_dns_over_quic: 0
 schema_version: %d
 `, zzG08Host, w.ports["w0"], zzG08TUser, string(h), zzG08Host, w.ports["d1"], config.SchemaVersion)
-	if err = os.WriteFile(w.confPath(), []byte(y), 0o644); err != nil {
-		return err
+	for attempt := 0; attempt < 3; attempt++ {
+		if attempt > 0 {
+			// the DNS port may have been taken by another process for a moment
+			time.Sleep(200 * time.Millisecond)
+			w.newDeployment()
+		}
+
+		if err = os.WriteFile(w.confPath(), []byte(y), 0o644); err != nil {
+			return err
+		}
+
+		if err = w.boot(); err == nil || w.hung {
+			return err
+		}
 	}
 
-	return w.boot()
+	return err
 }
 
 func (ta *zzG08TLS) port(name string) (p uint16) {
@@ -2049,7 +2124,9 @@ func (ta *zzG08TLS) trace(out *zzWriter, n int) {
 	pick := func(l ...string) string { return l[rng.Intn(len(l))] }
 	restart := func() {
 		if err := ta.reset(); err != nil {
-			ta.w.t.Fatalf("reset: %v", err)
+			ta.w.hung = true
+
+			return
 		}
 
 		_, obs := ta.observe()
@@ -2058,7 +2135,7 @@ func (ta *zzG08TLS) trace(out *zzWriter, n int) {
 
 	restart()
 	since := 0
-	for i := 0; i < n; i++ {
+	for i := 0; i < n && !ta.w.hung; i++ {
 		since++
 		act := "configure"
 		switch x := rng.Intn(100); {
